@@ -23,22 +23,48 @@ ASSUMPTIONS = [
     "empty reads with data remaining, premature EOF and partial lines",
     "slice matching is greedy earliest-occurrence (sound for 'non-overlapping slices in stream order')",
 ]
-GATES = ["frames_checked", "delivered_after_fault", "plans_enumerated"]
+GATES = ["frames_checked", "delivered_after_fault", "plans_enumerated", "directed_double_faults"]
 GATES_ZERO = ["budget_exceeded"]
 
 
-def make_stream(rng, small=False):
-    """Returns (data, has_foreign)."""
+def make_stream(rng, small=False, marks=None):
+    """Returns (data, has_foreign). marks (optional list) receives (kind, start offset, info)."""
     n = rng.randint(3, 7) if small else rng.randint(5, 16)
     parts = []
     foreign = False
+    valid = []  # valid frames emitted so far (for repeats / damaged repeats / CRC colliders)
     for _ in range(n):
         k = rng.random()
+        kk = rng.random()
+        if valid and kk < 0.10:  # exact repeat of an earlier frame (static messages repeat verbatim)
+            parts.append(rng.choice(valid))
+            continue
+        if valid and kk < 0.18:  # damaged repeat: header/payload bits flipped, trailer intact
+            fr = rng.choice(valid)
+            nb = (len(fr) - 3) * 8
+            _, pos = streams.damage_positions(rng, nb, 8, rng.choice(("single", "double", "odd3", "burst")))
+            parts.append(streams.flip(fr, pos))
+            foreign = True
+            continue
+        if valid and kk < 0.24:  # different valid frame with the same header and the same CRC trailer
+            c = streams.crc_collider(rng.choice(valid), rng)
+            if c is not None:
+                parts.append(c)
+                continue
+        if kk < 0.30:  # length field lies about the enclosed size; trailer valid for the bytes present
+            fr, a, d = streams.length_lie(rng)
+            if marks is not None:
+                marks.append(("length-lie", sum(len(x) for x in parts), (a, d)))
+            parts.append(fr)
+            foreign = True
+            continue
         if k < 0.38:
             kind = rng.choice(("defined", "unknown", "len0", "len1", "len2", "defined",
                                "unknown") + (() if small else ("len255", "len256", "defmax")))
             fr, _, _ = streams.rand_frame(rng, kind)
             parts.append(fr)
+            if 8 < len(fr) < 600:
+                valid.append(fr)
         elif k < 0.52:  # damaged frame, damage anywhere including header
             fr, _, _ = streams.rand_frame(rng, rng.choice(("defined", "unknown", "len2")))
             _, pos = streams.damage_positions(rng, len(fr) * 8, 0)
@@ -152,7 +178,7 @@ def run_case(ctx, data, plan, mode, pseed, foreign=True, label="gen"):
     ctx.hit("delivered", len(delivered))
     ctx.hit(f"mode{mode}")
     nontrivial = bool(delivered) and (foreign or bool(ds.faults_applied))
-    ctx.case(data + repr(sorted(plan.items())).encode() + bytes([mode]), nontrivial)
+    ctx.case(data + repr(sorted(plan.items(), key=str)).encode() + bytes([mode]), nontrivial)
     if nontrivial:
         ctx.sample({"stream_hex": data[:48].hex() + ("..." if len(data) > 48 else ""),
                     "stream_len": len(data), "plan": {str(k): v for k, v in plan.items()},
@@ -189,6 +215,33 @@ def run(ctx):
             for kind in ("short", "empty", "eof"):
                 run_case(ctx, data, {idx: kind}, mode, rng.getrandbits(16), foreign, "enum")
         ctx.hit("plans_enumerated", 3 * ncalls)
+    # (a2) directed double faults on frames whose length field lies: the payload read comes back with
+    #      exactly the bytes present (short read, then empty / second short read), so that the next
+    #      3 bytes read are a trailer that is valid for them
+    for _ in range(ctx.n(600, 12000)):
+        marks = []
+        data, foreign = make_stream(rng, small=True, marks=marks)
+        lies = [m for m in marks if m[2][1] > m[2][0]]
+        if not lies:
+            continue
+        probe = doubles.RecordingStream(data, budget=3 * len(data) + 16)
+        try:
+            from pyrtcm import RTCMReader
+
+            for _x in RTCMReader(probe, validate=1, quitonerror=0):
+                pass
+        except BaseException:
+            pass
+        for kind, start, (a, d) in lies:
+            seqs = [q for q, what, off, req, got, f in probe.log if what == "read" and off == start + 3 and req == d]
+            for q in seqs[:1]:
+                mode = rng.choice((0, 1, 2))
+                run_case(ctx, data, {q: ["short", a], q + 1: "empty"}, mode, 0, True, "directed")
+                if a > 1:
+                    j = rng.randint(1, a - 1)
+                    run_case(ctx, data, {q: ["short", j], q + 1: ["short", a - j]}, mode, 0, True, "directed")
+                    run_case(ctx, data, {q: ["short", j], q + 1: ["short", a - j], q + 2: "empty"}, mode, 0, True, "directed")
+                ctx.hit("directed_double_faults")
     # (b) random fault mixes on bigger streams, all modes
     for _ in range(ctx.n(4000, 80000)):
         data, foreign = make_stream(rng)
